@@ -67,6 +67,7 @@ type FuncSpec struct {
 	Ghosts     []GhostVar    // auxiliary integer variables of the function (initialised at entry)
 	GhostUpds  []*GhostUpd   // assignments to them, anchored at a source line of the function body
 	Unreachable map[string]bool // cover names (return@<block>) that must be PROVED unreachable instead of probed for reachability
+	Uses       map[string]bool // `uses entryclosure, blockframe`: opt-in heap facts for the verification of this function (ext_crypto.go)
 }
 
 // GhostVar / GhostUpd: auxiliary (ghost) integer variables. They never influence the program, so adding them is sound;
@@ -92,6 +93,7 @@ type SpecFn struct {
 	Text   string
 	Uninterp bool
 	Rec      bool // recursive over its last (integer) parameter: n <= 0 ? base : f(..., n-1)
+	Reads    []string // uninterp only: leaf types whose heap components are implicit arguments (`reads byte, uint64, *Key`)
 }
 
 type Lemma struct {
@@ -130,7 +132,7 @@ func loadContracts(files []string) (*Contracts, error) {
 	return cs, nil
 }
 
-var clauseKeywords = []string{"rec", "trustpre", "noframe", "lockset", "assumes", "hint", "func", "assume", "spec", "lemma", "requires", "ensures", "panics", "modifies", "reads", "pure", "loop", "property", "inline", "noinline", "fresh", "opaque", "axiom", "package", "uninterp", "maypanic", "expectfail", "mode", "unroll", "unreachable", "ghost", "at"}
+var clauseKeywords = []string{"rec", "trustpre", "noframe", "lockset", "assumes", "hint", "func", "assume", "spec", "lemma", "requires", "ensures", "panics", "modifies", "reads", "pure", "loop", "property", "inline", "noinline", "fresh", "opaque", "axiom", "package", "uninterp", "maypanic", "expectfail", "mode", "unroll", "unreachable", "ghost", "at", "uses"}
 
 func startsClause(s string) bool {
 	for _, k := range clauseKeywords {
@@ -266,7 +268,7 @@ func (cs *Contracts) loadFile(path string) error {
 			sf.Params = bs
 			tail := strings.TrimSpace(rest[j+1:])
 			if word == "uninterp" {
-				sf.Ret = tail
+				sf.Ret, sf.Reads = splitReads(tail) // `uninterp F(..) T reads byte, uint64` (ext_crypto.go)
 			} else {
 				k := strings.Index(tail, "=")
 				if k < 0 {
@@ -477,6 +479,19 @@ func (cs *Contracts) loadFile(path string) error {
 		case "lockset":
 			if cur != nil {
 				cur.Lockset = rest
+			}
+		case "uses":
+			// uses entryclosure, blockframe: opt-in facts assumed while verifying THIS function (see ext_crypto.go)
+			if cur != nil {
+				if cur.Uses == nil {
+					cur.Uses = map[string]bool{}
+				}
+				for _, f := range strings.FieldsFunc(rest, func(r rune) bool { return r == ',' || r == ' ' }) {
+					if f != "entryclosure" && f != "blockframe" && f != "readsframe" {
+						return fail(fmt.Errorf("uses: unknown fact %q (entryclosure, blockframe, readsframe)", f))
+					}
+					cur.Uses[f] = true
+				}
 			}
 		case "mode":
 			if cur != nil && rest == "bv64" {
